@@ -125,3 +125,73 @@ def shrink(probe, fn, hexin, go_v, model_v):
                 break
     a, m = verdicts(cur)
     return tohex(cur), a, m
+
+
+def write_range(name, n):
+    path = os.path.join(scratch(), name)
+    with open(path, "w") as f:
+        f.write("".join("%d\n" % i for i in range(n)))
+    return path
+
+
+def standard_check(res, prop, propfile, family, top, internals, leaves, rule, extra_families=()):
+    """Theorems + differential for one recognizer. internals: [(fn, family)], leaves: [(fn, domain_size)]."""
+    from vlib import check_properties_file
+    res.coverage["checker_cmd"] = "make -C coq -j16 && coqc -Q theories GV " + propfile
+    check_properties_file(res, propfile)
+    probe, hooked = build_probe(res)
+    if probe is None:
+        return
+    corp = {family: gen_inputs(family, res.seed, res.tier)}
+    mism = differential(res, top, corp[family], probe, "exported entry point")
+    if mism is None:
+        return
+    n, distinct, verdicts = stats(corp[family], os.path.join(scratch(), top + ".go.out"))
+    with open(corp[family]) as f:
+        head = [next(f).strip() for _ in range(60)]
+    res.coverage.update({
+        "evaluations": n, "distinct_nontrivial": distinct, "rule": rule,
+        "input_distribution": {"accepted": verdicts.get("T", 0), "rejected": verdicts.get("F", 0), "panicked": verdicts.get("P", 0)},
+        "samples": [{"hex": h, "bytes": repr(unhex(h))} for h in head[40:46]],
+    })
+    for hexin, g, m in mism[:5]:
+        if hexin != "<length mismatch>":
+            sh, g2, m2 = shrink(probe, top, hexin, g, m)
+            rep = repr(unhex(sh))
+        else:
+            sh, g2, m2, rep = hexin, g, m, hexin
+        res.violation({
+            "kind": "spec-violation", "function": top, "input_hex": sh, "input_repr": rep,
+            "implementation": g2, "model_and_spec": m2,
+            "explanation": "%s_exact proves model = spec for every byte string; /repo's %s differs from the model "
+                           "on this input (T accept, F reject, P panic)" % (prop, top),
+            "replay": "bin/check %s --replay <this file>" % prop})
+    drift = {}
+    if hooked:
+        for fn, fam in internals:
+            if fam not in corp:
+                corp[fam] = gen_inputs(fam, res.seed, res.tier)
+            mi = differential(res, fn, corp[fam], probe, "internal helper (hook)")
+            if mi and mi != "unavailable":
+                drift[fn] = mi[:3]
+        for fn, size in leaves:
+            leaf = write_range("range%d.in" % size, size)
+            mi = differential(res, fn, leaf, probe, "leaf, exhaustive over its %d-element domain" % size)
+            if mi and mi != "unavailable":
+                drift[fn] = mi[:3]
+    if drift:
+        res.coverage["internal_drift"] = drift
+        if not mism:
+            res.coverage["internal_drift_note"] = ("internal helpers differ from their model namesakes but the exported "
+                                                   "function equals the model (hence the spec) on the whole corpus: a rewrite, not a violation")
+
+
+def standard_replay(payload):
+    from vlib import go_build
+    probe, err = go_build("./cmd/helperprobe", "helperprobe_plain")
+    model_build()
+    inp = payload["input_hex"] + "\n"
+    a = subprocess.run([probe, payload["function"]], input=inp, stdout=subprocess.PIPE, text=True).stdout.strip()
+    m = subprocess.run([MODEL_BIN, payload["function"]], input=inp, stdout=subprocess.PIPE, text=True).stdout.strip()
+    print("input=%r implementation=%s model/spec=%s" % (unhex(payload["input_hex"]), a, m))
+    return 0 if a == m else 1
